@@ -363,6 +363,19 @@ func (i *Interpreter) Exec(ctx context.Context, bs match.Bindings, props core.St
 	default:
 		return nil, fmt.Errorf("%#v (%T) isn't Bindings", x, x)
 	}
+	if result != nil {
+		// Bindings are plain JSON data, like the messages given
+		// to out(): the runtime exports integral numbers as
+		// int64, which the matcher only recognizes at the top
+		// level of a pattern or message.
+		y, err := core.Canonicalize(map[string]interface{}(result))
+		if err != nil {
+			return nil, err
+		}
+		if m, is := y.(map[string]interface{}); is {
+			result = match.Bindings(m)
+		}
+	}
 	exe.Bs = result
 
 	return exe, nil
